@@ -173,7 +173,12 @@ fn coq_case(kind: u64, b: &[u8], keys: &[ForwardingKey], steps: &[(Step, StepRes
     let mut prev = b.to_vec();
     let mut rs = vec![];
     for (_, r) in steps {
-        let after = if r.after == prev { "RSame".to_string() } else { format!("RLit {}", coq_bytes(&r.after)) };
+        let after = if r.after == prev { "RSame".to_string() } else {
+            // an advance changes a handful of bytes: give the differences (position, new value)
+            let diffs: Vec<(usize, u8)> = if r.after.len() == prev.len() { r.after.iter().zip(prev.iter()).enumerate().filter(|(_, (a, p))| a != p).map(|(i, (a, _))| (i, *a)).collect() } else { vec![] };
+            if r.after.len() == prev.len() && diffs.len() <= 8 { format!("RDiff {}", coq_list(diffs.iter().map(|(i, a)| format!("({},{})", i, a)))) }
+            else { format!("RLit {}", coq_bytes(&r.after)) }
+        };
         rs.push(format!("({},{},{},{})", r.code, coq_list(r.params.iter().map(|x| x.to_string())), after, r.hop_before));
         prev = r.after.clone();
     }
@@ -278,7 +283,7 @@ fn main() {
         let ninfo = info_count(segs);
         for bit in 0..b0.len() * 8 {
             let mut bits = vec![bit];
-            if thorough && rng.chance(1, 2) { bits.push(rng.below((b0.len() * 8) as u64) as usize); }
+            if thorough && rng.chance(1, 2) { let nb = b0.len() * 8; let second = (bit + 1 + rng.below((nb - 1) as u64) as usize) % nb; bits.push(second); }
             let mut b = b0.clone();
             for &x in &bits { b[x / 8] ^= 0x80 >> (x % 8); }
             let off = bit / 8;
